@@ -463,13 +463,16 @@ func init() {
 					bound := -1
 					if strings.HasPrefix(sc.Name, "commit-then-park") || strings.HasPrefix(sc.Name, "two-readers") {
 						bound = 2
+						if !c.Quick() {
+							bound = 6
+						}
 					}
 					// MaxExecs: the largest schedule tree on the unchanged code has under 10^4 executions; a tree 50x that size is
 					// a runaway (e.g. a busy-wait loop under unbounded preemption) and is reported as not exhaustive
 					mc.Explore(&cc, r, "product", sc, mc.ExploreOpts{Bound: bound, MaxExecs: 500000})
 				}
 				mc.CountNontrivial(r)
-				r.Bounds = map[string]string{"product": fmt.Sprintf("%d profiles x %d writer stages x %d read entry points + %d converse scenarios (unbounded interleavings) + %d two-reader scenarios (pairs of %d entry points x 2 profiles against a parked writer, preemption bound 2)", len(profiles), len(stages), len(entries), len(converse()), len(twoReaders()), len(pairEntries))}
+				r.Bounds = map[string]string{"product": fmt.Sprintf("%d profiles x %d writer stages x %d read entry points + %d converse scenarios (unbounded interleavings) + %d two-reader scenarios (pairs of %d entry points x 2 profiles against a parked writer); commit-then-park and two-reader scenarios: preemption bound 2 (quick) / 6 (thorough)", len(profiles), len(stages), len(entries), len(converse()), len(twoReaders()), len(pairEntries))}
 			},
 			Replay: func(c *mc.Ctx, cs json.RawMessage) string { return mc.ReplaySched(all(), cs) },
 		}},
